@@ -213,7 +213,7 @@ func runC06(c *explore.Ctx) {
 func runC09(c *explore.Ctx) {
 	var spaces []plSpace
 	if c.Thorough() {
-		spaces = []plSpace{{"E", "ROLL", 7}, {"E", "ROLL+SW", 7}, {"E", "BIGC", 7}, {"E", "BIGC+SW", 6}, {"S2", "ROLL", 7}, {"S4", "ROLL", 6}, {"S3", "ROLL", 5}, {"CH", "BIGC", 5}, {"SP", "BIGC", 5}, {"S2!unclean", "ROLL", 5}, {"CH!unclean", "BIGC", 4}, {"T!unclean", "BIGC", 4}, {"T!torn", "BIGC", 5}, {"S2!torn", "ROLL", 5}}
+		spaces = []plSpace{{"E", "ROLL", 8}, {"E", "ROLL+SW", 8}, {"E", "BIGC", 8}, {"E", "BIGC+SW", 7}, {"S2", "ROLL", 8}, {"S4", "ROLL", 7}, {"S3", "ROLL", 6}, {"CH", "BIGC", 6}, {"SP", "BIGC", 6}, {"S2!unclean", "ROLL", 6}, {"CH!unclean", "BIGC", 5}, {"T!unclean", "BIGC", 5}, {"T!torn", "BIGC", 6}, {"S2!torn", "ROLL", 6}}
 	} else {
 		spaces = []plSpace{{"E", "ROLL", 4}, {"E", "ROLL+SW", 3}, {"E", "BIGC", 4}, {"E", "BIGC+SW", 3}, {"S2", "ROLL", 4}, {"S4", "ROLL", 3}, {"SP", "BIGC", 2}, {"CH", "BIGC", 2}, {"S2!unclean", "ROLL", 2}, {"CH!unclean", "BIGC", 1}, {"T!torn", "BIGC", 2}, {"S2!torn", "ROLL", 2}}
 	}
